@@ -283,7 +283,12 @@ def _file_may_match(
                     return False
 
             elif expr.op == FilterOp.NE:
-                # For inequality: can only prune if entire file has same value
+                # For inequality: can only prune if entire file has same value.
+                # Float bounds are computed ignoring NaN, and NaN != x is TRUE,
+                # so a float column may hold matching NaN rows the bounds do
+                # not describe - never prune != on float bounds.
+                if isinstance(file_min, float) or isinstance(file_max, float):
+                    continue
                 if file_min == file_max == expr.value:
                     return False
 
@@ -313,6 +318,10 @@ def _file_may_match(
 
             elif expr.op == FilterOp.IN:
                 # For IN: at least one value in the list must be in [file_min, file_max]
+                # is_in matches NaN against a NaN in the value set, but NaN rows
+                # are invisible to min/max bounds: cannot prune on such a set.
+                if any(isinstance(v, float) and v != v for v in expr.value):
+                    continue
                 if expr.value:
                     has_possible_match = any(
                         file_min <= v <= file_max for v in expr.value
